@@ -8,6 +8,7 @@ import (
 	"sort"
 	"strings"
 
+	"golang.org/x/tools/go/callgraph"
 	"golang.org/x/tools/go/ssa"
 
 	"verif/internal/core"
@@ -339,6 +340,7 @@ var c15SharedExcuse = map[string]string{
 
 func c15Shared(r *core.Report, scope []*ssa.Function) {
 	p := r.Prog
+	c15Graph = p.CallGraph()
 	shared := sharedTypes(p)
 	// whatever is put into a package-level container becomes shared: the types of the values stored
 	// into package-level sync.Maps by the reachable code
@@ -798,6 +800,24 @@ func mapFieldOrigins(v ssa.Value, depth int, seen map[ssa.Value]bool) []*ssa.Fie
 				if st, ok := ref.(*ssa.Store); ok && st.Addr == ssa.Value(al) {
 					out = append(out, mapFieldOrigins(st.Val, depth+1, seen)...)
 				}
+				// closures that share the variable may assign it too
+				if mc, ok := ref.(*ssa.MakeClosure); ok {
+					cf := mc.Fn.(*ssa.Function)
+					for i, bnd := range mc.Bindings {
+						if bnd == ssa.Value(al) && i < len(cf.FreeVars) {
+							for _, v := range cellStores(cf.FreeVars[i]) {
+								out = append(out, mapFieldOrigins(v, depth+1, seen)...)
+							}
+						}
+					}
+				}
+			}
+			return out
+		}
+		if fv, ok := x.X.(*ssa.FreeVar); ok {
+			var out []*ssa.FieldAddr
+			for _, v := range cellStores(fv) {
+				out = append(out, mapFieldOrigins(v, depth+1, seen)...)
 			}
 			return out
 		}
@@ -809,8 +829,109 @@ func mapFieldOrigins(v ssa.Value, depth int, seen map[ssa.Value]bool) []*ssa.Fie
 		return out
 	case *ssa.ChangeType:
 		return mapFieldOrigins(x.X, depth+1, seen)
+	case *ssa.Parameter:
+		// what the callers pass
+		if c15Graph == nil || x.Parent() == nil {
+			return nil
+		}
+		idx := -1
+		for i, prm := range x.Parent().Params {
+			if prm == x {
+				idx = i
+			}
+		}
+		var out []*ssa.FieldAddr
+		if n := c15Graph.Nodes[x.Parent()]; n != nil && idx >= 0 {
+			for _, e := range n.In {
+				if e.Site == nil {
+					continue
+				}
+				c := e.Site.Common()
+				var args []ssa.Value
+				if c.IsInvoke() {
+					args = append(args, c.Value)
+				}
+				args = append(args, c.Args...)
+				if idx < len(args) {
+					out = append(out, mapFieldOrigins(args[idx], depth+1, seen)...)
+				}
+			}
+		}
+		return out
+	case *ssa.Call:
+		// a library function that hands back one of the maps it was given
+		sc := x.Common().StaticCallee()
+		if sc == nil || !core.SSAFuncInRepo(sc) || sc.Signature.Results().Len() != 1 {
+			return nil
+		}
+		var out []*ssa.FieldAddr
+		for _, b := range sc.Blocks {
+			for _, in := range b.Instrs {
+				if ret, ok := in.(*ssa.Return); ok && len(ret.Results) == 1 {
+					out = append(out, mapFieldOrigins(ret.Results[0], depth+1, seen)...)
+				}
+			}
+		}
+		return out
 	}
 	return nil
+}
+
+// c15Graph: the call graph used to follow map parameters to what callers pass (set by c15Shared).
+var c15Graph *callgraph.Graph
+
+// cellStores: every value stored into the variable cell a closure captured (in the function that
+// declares the variable and in all closures that share it).
+func cellStores(fv *ssa.FreeVar) []ssa.Value {
+	fn := fv.Parent()
+	if fn == nil || fn.Parent() == nil {
+		return nil
+	}
+	idx := -1
+	for i, f := range fn.FreeVars {
+		if f == fv {
+			idx = i
+		}
+	}
+	var cell ssa.Value
+	outer := fn.Parent()
+	for _, b := range outer.Blocks {
+		for _, in := range b.Instrs {
+			if mc, ok := in.(*ssa.MakeClosure); ok && mc.Fn == ssa.Value(fn) && idx >= 0 && idx < len(mc.Bindings) {
+				cell = mc.Bindings[idx]
+			}
+		}
+	}
+	if cell == nil {
+		return nil
+	}
+	var out []ssa.Value
+	collect := func(addr ssa.Value) {
+		if addr.Referrers() == nil {
+			return
+		}
+		for _, ref := range *addr.Referrers() {
+			if st, ok := ref.(*ssa.Store); ok && st.Addr == addr {
+				out = append(out, st.Val)
+			}
+		}
+	}
+	collect(cell)
+	for _, b := range outer.Blocks {
+		for _, in := range b.Instrs {
+			mc, ok := in.(*ssa.MakeClosure)
+			if !ok {
+				continue
+			}
+			cf := mc.Fn.(*ssa.Function)
+			for i, bnd := range mc.Bindings {
+				if bnd == cell && i < len(cf.FreeVars) {
+					collect(cf.FreeVars[i])
+				}
+			}
+		}
+	}
+	return out
 }
 
 // c15CacheKey: what a process-wide cache returns depends on the key alone.
